@@ -71,6 +71,8 @@ func sessionCatalogue(tier string) []sessCfg {
 		{"ecdsa-resharing", 5, 2, []int{0, 1, 3}, 3, 1, "vendored", 8},
 		// the smallest committees: every "everybody else" address list has exactly one entry
 		{"ecdsa-resharing", 3, 1, []int{0, 2}, 2, 1, "seeded", 6},
+		// a shrinking committee: more participating old members than new ones (indices of old senders exceed the new size)
+		{"ecdsa-resharing", 5, 2, []int{0, 1, 3, 4}, 2, 1, "vendored", 7},
 	}
 	if tier == "thorough" {
 		cs = append(cs,
